@@ -11,7 +11,7 @@ import (
 
 //verif:include ../dnsdata/rdb/zz_verif_model.go
 //verif:include ../db/zz_verif_world.go
-//verif:harness H13_robust property=C13 native=no quick=world=0,layout=2,edns=0;world=1,layout=1,edns=1;world=2,layout=0,edns=0;world=3,layout=2,edns=1 thorough=world=0,layout=0,edns=2;world=0,layout=1,edns=4;world=1,layout=2,edns=3;world=2,layout=1,edns=2;world=2,layout=2,edns=1;world=3,layout=0,edns=4
+//verif:harness H13_robust property=C13 native=no quick=world=0,layout=2,edns=0;world=1,layout=1,edns=1;world=1,layout=2,edns=0;world=2,layout=0,edns=0;world=3,layout=2,edns=1 thorough=world=0,layout=0,edns=2;world=0,layout=1,edns=4;world=1,layout=2,edns=3;world=2,layout=1,edns=2;world=2,layout=2,edns=1;world=3,layout=0,edns=4
 
 // verifWellFormed: what C13 demands of a written message.
 func verifWellFormed(q, resp *dns.Msg, tcp bool, tag string) {
@@ -45,7 +45,11 @@ func H13_robust() {
 		// recorded finding: the BADVERS reply built by coredns' edns.Version has no question section
 		nd.Known("C13-badvers-empty-question", o.Version() != 0)
 	}
+	// "returns": names have at most four labels and the stores under sixty keys, so no loop of the
+	// handler or the readers needs anywhere near this many iterations
+	nd.HangBound(5000)
 	_, _ = env.h.ServeDNSWithRCODE(context.Background(), w, q)
+	nd.HangBound(0)
 	nd.Assert(len(w.written)+w.raw <= 1, "at-most-one-reply")
 	if len(w.written) == 1 {
 		resp := w.written[0]
